@@ -119,6 +119,7 @@ type Op struct {
 	N    int         `json:"n,omitempty"`    // bulk count / callback kind
 	Park bool        `json:"park,omitempty"` // park (stall) inside the user function
 	Slow bool        `json:"slow,omitempty"` // slow user function: frozen inside it until nobody else can move
+	Adv  int64       `json:"adv,omitempty"`  // the user function takes this long: the clock moves while it runs (sequential scenarios without a janitor)
 }
 
 func (o Op) String() string {
@@ -211,6 +212,7 @@ func (r *Rec) String() string {
 
 // World is the execution context shared by the tasks of one run.
 type World struct {
+	rearms int // re-arming callback invocations (CBKind 5)
 	sim     *simrt.Sim
 	m       MapAPI
 	c       CacheAPI
@@ -256,6 +258,13 @@ func (w *World) begin(op Op, nested bool) *Rec {
 	}
 	if t := simrt.CurTask(); t != nil {
 		t.OpSteps, t.OpWaits, t.OpSpins = 0, 0, 0
+		if !nested {
+			t.CallSteps = 0
+			switch op.K {
+			case XBulkInsert, XBulkDelete, XAdvance, XPrefillCount:
+				t.CallSteps = -1 << 40 // many calls under one record: no per-call limit
+			}
+		}
 	}
 	w.recs = append(w.recs, r)
 	return r
@@ -284,6 +293,9 @@ func (w *World) userFn(r *Rec) func(old int64, loaded bool) (int64, bool) {
 		}
 		if r.Op.Slow {
 			simrt.ParkResumable()
+		}
+		if r.Op.Adv > 0 && w.sim != nil && w.sim.BackgroundTasks() == 0 {
+			w.sim.Advance(r.Op.Adv, false, 0)
 		}
 		switch r.Op.Fn {
 		case FnDelete:
@@ -322,6 +334,9 @@ func (w *World) valueFn(r *Rec) func() int64 {
 		}
 		if r.Op.Slow {
 			simrt.ParkResumable()
+		}
+		if r.Op.Adv > 0 && w.sim != nil && w.sim.BackgroundTasks() == 0 {
+			w.sim.Advance(r.Op.Adv, false, 0)
 		}
 		return r.Op.Val
 	}
@@ -490,6 +505,11 @@ func (w *World) callback(kind int) (func(k int, v int64), int) {
 		}
 		if kind == 2 {
 			w.reenterAll(false, k, v)
+		}
+		if kind == 5 {
+			// re-arm: the evicted entry is stored again with a TTL of one nanosecond
+			w.rearms++
+			w.ExecCache(Op{K: CSet, Key: k, Val: derivedVal(k, v), D: 1}, true)
 		}
 		if kind == 4 {
 			// observer: looks at the cache from inside the callback without changing it
